@@ -279,19 +279,18 @@ theorem segment_content {P : CMode → Prop} (macFn : Tsig → List UInt8 → Li
       exact h2
 
 
-/-- the walk and the content clauses together, from a fresh writer (sessions without `clear_rrs` and
-    `getters`) -/
+/-- the walk and the content clauses together, from a fresh writer (sessions without `clear_rrs`) -/
 theorem segment_from_new (macFn : Tsig → List UInt8 → List UInt8) (hmac : MacLenOK macFn)
     (buf : Bytes) (limit : Nat) (s0 : State) (hnew : Writer.new buf limit = .ok s0) (hlim : limit ≤ 65535)
     (mode : CMode) (ops : List Op) (ht : ∀ op ∈ ops, op.Typed) (hb : ∀ op ∈ ops, ApiBounds op)
     (hr : Respects { w := { s0 with mode := mode } } ops) (hv : ∀ v, Op.setLimit v ∈ ops → v ≤ 65535)
-    (hno : ∀ op ∈ ops, op ≠ .clearRrs ∧ op ≠ .getters ∧ NonEmptySet op) (mac' : Option (List UInt8)) :
+    (hno : ∀ op ∈ ops, op ≠ .clearRrs ∧ NonEmptySet op) (mac' : Option (List UInt8)) :
     ∃ m mac d aF, finish (run { w := { s0 with mode := mode } } ops).1.w macFn = .ok (m, mac) ∧
       Message.specDecodeMsg m = some d ∧
       Message.walk false
           { mode := Driver.toSpecMode mode, buflen := buf.size, limit := min limit buf.size }
           (ops.map Driver.toSpecOp)
-          ((run { w := { s0 with mode := mode } } ops).2.map Driver.statusStr ++ ["ok"]) [m] (some d) mac' =
+          (obs { w := { s0 with mode := mode } } ops ++ ["ok"]) [m] (some d) mac' =
         Message.checkSegment false aF d m.size mac' ∧
       aF.hdr = d.msg.header ∧ aF.hdr.z = 0 ∧ m.size ≤ aF.limit ∧
       AbsCfg (run { w := { s0 with mode := mode } } ops).1.w aF ∧
@@ -451,7 +450,7 @@ theorem segment_reduces_to_audit (macFn : Tsig → List UInt8 → List UInt8) (h
     (buf : Bytes) (limit : Nat) (s0 : State) (hnew : Writer.new buf limit = .ok s0) (hlim : limit ≤ 65535)
     (mode : CMode) (ops : List Op) (ht : ∀ op ∈ ops, op.Typed) (hb : ∀ op ∈ ops, ApiBounds op)
     (hr : Respects { w := { s0 with mode := mode } } ops) (hv : ∀ v, Op.setLimit v ∈ ops → v ≤ 65535)
-    (hno : ∀ op ∈ ops, op ≠ .clearRrs ∧ op ≠ .getters ∧ NonEmptySet op)
+    (hno : ∀ op ∈ ops, op ≠ .clearRrs ∧ NonEmptySet op)
     (hml : ∀ m mac ts, finish (run { w := { s0 with mode := mode } } ops).1.w macFn = .ok (m, mac) →
       (run { w := { s0 with mode := mode } } ops).1.w.tsig = some ts →
       (mac.getD []).length = (toATsig ts).macLen)
@@ -464,7 +463,7 @@ theorem segment_reduces_to_audit (macFn : Tsig → List UInt8 → List UInt8) (h
       Message.walk false
           { mode := Driver.toSpecMode mode, buflen := buf.size, limit := min limit buf.size }
           (ops.map Driver.toSpecOp)
-          ((run { w := { s0 with mode := mode } } ops).2.map Driver.statusStr ++ ["ok"]) [m] (some d) mac' =
+          (obs { w := { s0 with mode := mode } } ops ++ ["ok"]) [m] (some d) mac' =
         Message.auditPointers d aF.itemModes.reverse aF.mode := by
   obtain ⟨m, mac, d, aF, hf, hd, hw, hh, hz, hlimit, hG, hmode, hq1, hq2, ha, hn, ds, tl, hadd, har, htl⟩ :=
     segment_from_new macFn hmac buf limit s0 hnew hlim mode ops ht hb hr hv hno mac'
